@@ -744,13 +744,13 @@ def concurrent_kills(ctx, res, stats, stride):
                 done0 = len([x for x in r['calls'][0] if not x.get('pending')])
                 init = c05.make_ref('cache', setup)
                 fin = c05.final_matches('cache', snap)
-                ok = c05.linearize(acts, init, fin, tolerate=True) is not None
+                ok = c05.linearize(acts, init, fin) is not None
                 if not ok and done0 < len(programs[0]):
                     call = programs[0][done0]
                     mine = [s for s, (cid, _, _) in enumerate(r['log']) if cid == 0]
                     first = mine[r['calls'][0][-1]['e1']] if r['calls'][0] and r['calls'][0][-1]['e1'] < len(mine) else (mine[0] if not r['calls'][0] and mine else len(r['log']))
                     pend = c05.Action('0.%d' % done0, 0, first, len(r['log']) + 1, [(call, ('ok', None))])
-                    ok = c05.linearize(acts + [pend], init, fin, tolerate=True, wild=lambda c: c is call) is not None
+                    ok = c05.linearize(acts + [pend], init, fin, wild=lambda c: c is call) is not None
                 if not ok:
                     viol.append(('contents_not_atomic', 'results %r and final contents %r are not explained with the interrupted call applied or not' % (
                         [[rec['op'], rec.get('result', rec.get('exc'))] for recs in r['calls'] for rec in recs], [[x[0], x[2]] for x in snap['items']])))
